@@ -307,14 +307,18 @@ HISTORY_CELLS = {
     'F1': '=IF(A1>0,B1,C1)', 'G1': '=AND(B1:B3)', 'H1': '=SUM(B1:B2,B3)', 'I1': '=IF(G1,"all",IF(OR(B1:B3),"some","none"))',
     'J1': '=MAX(A1:A3)&"|"&MIN(B1:B3)', 'K1': '=IF(NOT(A1>A3),A2,-A2)', 'L1': '=COUNT(A1:B3)+AVERAGE(B1:B3)',
     'M1': '=-A1+A2', 'N1': '=-(B1)%', 'O1': '=SUM(A1:A5)+COUNT(A1:A5)*1000',
+    'P1': '=A1&""', 'Q1': '=ISNUMBER(A1)', 'R1': '=ISBLANK(A9)&A9&"x"', 'S1': '=COUNT(A1:A3)',
 }
-_ALL = ['B1', 'C1', 'D1', 'E1', 'F1', 'G1', 'H1', 'I1', 'J1', 'K1', 'L1', 'M1', 'N1', 'O1']
+_ALL = ['B1', 'C1', 'D1', 'E1', 'F1', 'G1', 'H1', 'I1', 'J1', 'K1', 'L1', 'M1', 'N1', 'O1', 'P1', 'Q1', 'R1', 'S1']
 
 
 def _history_steps(full):
     ev = [('eval', a) for a in _ALL]
     some = [('eval', a) for a in ('E1', 'F1', 'G1', 'H1', 'I1', 'K1')]
     steps = ev + [('set', 'A1', -1)] + ev + [('set', 'A3', 1), ('set', 'A4', 50)] + some + [('eval', 'O1'), ('eval', 'M1'), ('set', 'A2', 0), ('set', 'A1', 5)] + ev
+    # values that are equal for Python but not for the spreadsheet: 1 / TRUE / 1.0, an absent cell / 0
+    typed = [('eval', a) for a in ('P1', 'Q1', 'R1', 'S1')]
+    steps += [('set', 'A1', 1)] + typed + [('set', 'A1', True)] + typed + [('set', 'A1', 1.0)] + typed + [('set', 'A9', 0)] + typed + [('set', 'A9', False), ('eval', 'R1')]
     if full:
         steps += [('set', 'A3', 9), ('eval', 'J1'), ('eval', 'B3'), ('set', 'A2', -3), ('eval', 'D1'), ('eval', 'E1'), ('set', 'A1', 0)] + ev
     return steps
@@ -331,7 +335,10 @@ def rule_6(ctx):
     n = S.check_history(ctx, anchor, 'history', HISTORY_CELLS, _history_steps(ctx.tier != 'quick'), why=why, cache=cache)
     short = [('eval', 'E1'), ('eval', 'I1'), ('set', 'A1', -1), ('eval', 'E1'), ('eval', 'F1'), ('set', 'A3', 1), ('eval', 'I1'), ('eval', 'G1')]
     n += S.check_history(ctx, anchor, 'history through the model', HISTORY_CELLS, short, why=why, cache=cache, through_model=True)
-    ctx.floor(60, 'evaluations compared with a freshly compiled model')
+    S.check_names_history(ctx, anchor, 'history with defined names',
+                          'Setting an input through a defined name is equivalent to setting it through its address, and formulas that reach '
+                          'the input through the name see the new value.')
+    ctx.floor(75, 'evaluations compared with a freshly compiled model / hand-computed values')
 
 
 RULES = [
